@@ -2,8 +2,6 @@ package chain
 
 import (
 	"fmt"
-	"net/http"
-	"net/url"
 	"strings"
 
 	"github.com/gookit/rux"
@@ -402,7 +400,7 @@ func (pm *PModel) EnableSub() {
 	inner.Sub = nil
 	pm.Hooks.Sub = func(method, path string) string {
 		chain, ps, _ := pm.Expect(method, path)
-		req := &http.Request{Method: method, URL: &url.URL{Path: path}, Header: http.Header{}, Proto: "HTTP/1.1", ProtoMajor: 1, ProtoMinor: 1}
+		req := BuildRequest(method, path)
 		out, _ := ModelDispatch(chain, inner, NewRec(), req, ps, false)
 		return SubText(out)
 	}
